@@ -29,21 +29,43 @@ fn make_data_file(path: &Path, words: u64) {
 }
 
 pub fn steps(dir: &str) -> Value {
+	// sparse 80 MiB file: the probe only looks at syscalls, not at content
 	let p = Path::new(dir).join("c13_steps.bin");
-	make_data_file(&p, 4096);
+	{
+		let f = std::fs::File::create(&p).unwrap();
+		f.set_len(80 << 20).unwrap();
+	}
 	let reader = DataReaderFile::open(&p).unwrap();
 	marker("opened");
-	for (i, (off, len)) in [(800u64, 64u64), (8u64, 4096u64)].iter().enumerate() {
-		marker(&format!("begin read_range {i}"));
-		let b = futures::executor::block_on(reader.read_range(&ByteRange::new(*off, *len))).unwrap();
-		marker(&format!("end read_range {i}"));
-		assert_eq!(b.len() as u64, *len);
+	// range lengths 2^k and 2^k + 8 for k = 3..26: a size-dependent code path shows up as its own step structure
+	let mut i = 0;
+	for k in 3..=26u32 {
+		for len in [1u64 << k, (1u64 << k) + 8] {
+			marker(&format!("begin read_range {i}"));
+			let b = futures::executor::block_on(reader.read_range(&ByteRange::new(8, len))).unwrap();
+			marker(&format!("end read_range {i}"));
+			assert_eq!(b.len() as u64, len);
+			i += 1;
+		}
 	}
 	marker("begin read_all 0");
 	let b = futures::executor::block_on(reader.read_all()).unwrap();
 	marker("end read_all 0");
-	assert_eq!(b.len(), 4096 * 8);
-	json!({"file": p.to_str().unwrap()})
+	assert_eq!(b.len(), 80 << 20);
+	drop(reader);
+	let _ = std::fs::remove_file(&p);
+	json!({"calls": i + 1})
+}
+
+/// read length in 8-byte words: mostly tile-sized, sometimes around 64 KiB / 1 MiB / 4 MiB
+fn rnd_len(r: &mut Rng) -> u64 {
+	match r.below(40) {
+		0 => (1 << 13) + r.below(3),       // 64 KiB
+		1 => (1 << 17) - 1 + r.below(3),   // 1 MiB -1/0/+1 word
+		2 => (1 << 18) + r.below(1000),    // 2 MiB
+		3 => (1 << 19) + r.below(1000),    // 4 MiB
+		_ => r.range(1, 64),
+	}
 }
 
 fn judge_words(b: &[u8]) -> (i64, i64, i64) {
@@ -82,7 +104,7 @@ fn container_tiles(rng: &mut Rng, n: usize) -> Vec<(TileCoord3, Blob)> {
 pub fn stress(dir: &str, output: &str, seed: u64, thorough: bool) -> Value {
 	let mut out = Out::create(output);
 	let mut rng = Rng::new(seed ^ 0xC13);
-	let words: u64 = 1 << 17; // 1 MiB
+	let words: u64 = 1 << 22; // 32 MiB
 	let p = Path::new(dir).join("c13_data.bin");
 	make_data_file(&p, words);
 	out.emit(&json!({"ev":"File","words":words}));
@@ -98,7 +120,7 @@ pub fn stress(dir: &str, output: &str, seed: u64, thorough: bool) -> Value {
 			handles.push(std::thread::spawn(move || {
 				let mut evs = vec![];
 				for _ in 0..per_thread {
-					let len = r.range(1, 64);
+					let len = rnd_len(&mut r);
 					let off = r.below(words - len);
 					let res = catch(|| futures::executor::block_on(reader.read_range(&ByteRange::new(off * 8, len * 8))));
 					evs.push(read_event("threads", t, off, len, res));
@@ -124,7 +146,7 @@ pub fn stress(dir: &str, output: &str, seed: u64, thorough: bool) -> Value {
 				hs.push(tokio::spawn(async move {
 					let mut evs = vec![];
 					for i in 0..per_thread {
-						let len = r.range(1, 64);
+						let len = rnd_len(&mut r);
 						let off = r.below(words - len);
 						let res = reader.read_range(&ByteRange::new(off * 8, len * 8)).await;
 						evs.push(read_event("tokio", t, off, len, Ok(res)));
